@@ -6,6 +6,7 @@ import (
 	"context"
 	"sort"
 	"strconv"
+	"sync"
 	"testing"
 	"time"
 
@@ -226,5 +227,61 @@ func TestC16Runs(t *testing.T) {
 			tags = append(tags, "nt")
 		}
 		o.Case("gather_obs", []string{encLabels(r, labels), "T", encRuns(plans)}, "ok "+gatherObs(m), tags...)
+	}
+}
+
+// concurrent workers: iterations of different outcomes are recorded at the same time on one
+// instance with static labels; the exported series and counts only depend on the multiset of
+// outcomes, so the same model applies
+func TestC16Concurrent(t *testing.T) {
+	o := kit.Get()
+	defer o.Close()
+	r := kit.NewRand(kit.Seed() + 162)
+	n := kit.N(6, 60)
+	for i := 0; i < n; i++ {
+		labels := genLabels(r)
+		for len(labels) == 0 {
+			labels = genLabels(r)
+		}
+		m := runkit.NewMetrics(labels, true)
+		m.Reset()
+		nw := int(kit.Pick(r, 2, 4, 8, 12))
+		per := int(r.Range(100, 400))
+		rp := runPlan{name: "scn"}
+		for j := 0; j < nw*per; j++ {
+			rp.outs = append(rp.outs, kit.Pick(r, 0, 1, 2))
+		}
+		sc := &scenarios.Scenario{Name: rp.name, ScenarioFn: func(*f1testing.T) f1testing.RunFn {
+			return func(t *f1testing.T) {
+				id, _ := strconv.Atoi(t.Iteration)
+				if rp.outs[id-1] == 1 {
+					t.Fail()
+				}
+			}
+		}}
+		as := workers.NewActiveScenario(sc, m, &progress.Stats{}, log.NewDiscardLogger(), logrus.New())
+		as.Setup()
+		start := make(chan struct{})
+		var wg sync.WaitGroup
+		for w := 0; w < nw; w++ {
+			st := as.VerifNewIterationState()
+			wg.Add(1)
+			go func(w int) {
+				defer wg.Done()
+				<-start
+				for j := w * per; j < (w+1)*per; j++ {
+					if rp.outs[j] == 2 {
+						as.RecordDroppedIteration()
+					} else {
+						workers.VerifStateT(st).Reset(strconv.Itoa(j + 1))
+						as.Run(st)
+					}
+				}
+			}(w)
+		}
+		close(start)
+		wg.Wait()
+		o.Count("workers", kit.I(nw))
+		o.Case("gather_obs", []string{encLabels(r, labels), "T", encRuns([]runPlan{rp})}, "ok "+gatherObs(m), "concurrent", "nt")
 	}
 }
